@@ -39,6 +39,41 @@ def seeded(seed, n):
     return out
 
 
+def skirt_cases(seed, n):
+    """More than 50 points whose extreme points in the eight compass directions span an octagon, plus lattice points ON the
+    octagon's edges and one step to either side of them: points just outside an edge are hull vertices (or lie on a hull
+    edge) although they are nearly collinear with two extreme points - the class on which a discard-the-interior heuristic
+    decides by the sign of a tiny determinant. (The octagon is computed here only to aim the inputs; the verdict is IsHullOf.)"""
+    r = random.Random(seed * 31 + 17)
+    out = []
+    while len(out) < n:
+        G = r.choice([40, 100, 100, 1000, 8000])
+        m = r.choice([44, 52, 60, 75, 90])
+        pts = [[r.randrange(G), r.randrange(G)] for _ in range(m)]
+        keys = [lambda p: p[0], lambda p: p[0] - p[1], lambda p: -p[1], lambda p: -p[0] - p[1],
+                lambda p: -p[0], lambda p: p[1] - p[0], lambda p: p[1], lambda p: p[0] + p[1]]
+        ext = [min(pts, key=k) for k in keys]
+        extra = []
+        for i in range(8):
+            a, b = ext[i], ext[(i + 1) % 8]
+            if a == b:
+                continue
+            for _ in range(r.choice([1, 2, 3])):
+                t = r.random()
+                q = [int(round(a[0] + t * (b[0] - a[0]))), int(round(a[1] + t * (b[1] - a[1])))]
+                if r.random() < 0.5:
+                    q = ec.lattice_on(r, a, b)
+                d = r.choice([[0, 0], [1, 0], [-1, 0], [0, 1], [0, -1], [1, 1], [-1, -1], [1, -1], [-1, 1]])
+                q = [q[0] + d[0], q[1] + d[1]]
+                if 0 <= q[0] < 3 * G and 0 <= q[1] < 3 * G:
+                    extra.append(q)
+        pts += extra
+        r.shuffle(pts)
+        ox, oy = r.choice([(0, 0), (-G, -G), (-G // 2, 0)])
+        out.append(dict(pts=[[x + ox, y + oy] for x, y in pts][:200], l=r.choice(["XY", "XYZ", "XYM", "XYZM"])))
+    return out
+
+
 def big_cases(seed, n, maxpts):
     """Inputs on a grid of 2^20 around the origin (negative coordinates included): random clouds, points on a few lines
     (many collinear triples on the hull), near-degenerate thin clouds, on both sides of the 50-point reduction."""
@@ -93,7 +128,7 @@ def run(ctx, verdict):
     # the components the hull is assembled from (anchors: transform.UniqueCoords / TreeSet, sorting.FlatCoord)
     sub = enumerated if not ctx.quick else [c for i, c in enumerate(enumerated) if len(c["pts"]) <= 3 or i % 4 == 0]
     ec.pipe("setorder", "setorder")(ctx, verdict, sub)
-    cases = seeded(ctx.seed, 300 if ctx.quick else 4000)
+    cases = seeded(ctx.seed, 300 if ctx.quick else 4000) + skirt_cases(ctx.seed, 80 if ctx.quick else 1500)
     vlib.note_cases(ctx, cases, nontrivial=lambda c: len({tuple(p) for p in c["pts"]}) >= 3)
     ec.pipe("hull")(ctx, verdict, cases)
     big = big_cases(ctx.seed, 6 if ctx.quick else 120, 30 if ctx.quick else 120)
